@@ -18,8 +18,8 @@ impl Property for C13 {
     }
     fn runs(&self, tier: Tier) -> u64 {
         match tier {
-            Tier::Quick => 500,
-            Tier::Thorough => 8000,
+            Tier::Quick => 3000,
+            Tier::Thorough => 50000,
         }
     }
     fn rule(&self) -> &'static str {
